@@ -293,6 +293,17 @@ fn s4(ctx: &mut Ctx) {
             }
         }
     }
+    for align in 0..8usize {
+        for last in [false, true] {
+            for sign in [false, true] {
+                for low in [0u8, 1, 127] {
+                    for run in super::gen_codec::wide_runs() {
+                        jobs.push((12, 8300, align, last, sign, low, run));
+                    }
+                }
+            }
+        }
+    }
     let t: Tally = jobs
         .par_iter()
         .map(|&(n, l, align, last, sign, low, run)| {
@@ -323,7 +334,7 @@ fn s4(ctx: &mut Ctx) {
         });
     let mut part = Part::new(
         "S4_run_tokens",
-        "unary runs {0..=130, 255, 256, 257, 511, 512, 513} x {middle,last coefficient} x sign x low in {0,1,127} x 8 cursor alignments at (n,L) in {(512,625),(1024,1239),(12,90),(16,20)}; each also with a padding bit set, cut to the tight length and truncated by one byte",
+        "unary runs {0..=130, 255, 256, 257, 511, 512, 513} x {middle,last coefficient} x sign x low in {0,1,127} x 8 cursor alignments at (n,L) in {(512,625),(1024,1239),(12,90),(16,20)}, and runs at the widths of wider counters {1023..1025, 4095..4097, 32766..32769, 40000, 65534..65537} at (12, 8300); each also with a padding bit set, cut to the tight length and truncated by one byte",
     );
     part.exhaustive = true;
     t.into_part(ctx, part);
